@@ -428,6 +428,28 @@ theorem legacy_duplicates_violate :
       (g.base.parse ⟨"int", .int 20⟩, g.base.parse (Dyn.ofString "B1Old"), g.unmarshalYAML {} "10"))
       = some (some 2, some 1, some 1) := by decide
 
+/-- an untyped rune trait 'a','b' declared parsable; its family comes from `extractUnderlying` -/
+def runeWitness (legacy : Bool) : TypeDecl :=
+  { name := "E", kind := ⟨64, true⟩, cols := [⟨"Rn", "rune", extractUnderlyingQ legacy .untypedRune⟩] }
+
+def runeDef (legacy : Bool) : FileDef :=
+  ⟨[runeWitness legacy],
+   [{ name := "R0", ty := "E", val := 0, deprecated := false, tvals := [.int 97] },
+    { name := "R1", ty := "E", val := 1, deprecated := false, tvals := [.int 98] }]⟩
+
+/-- the pinned `extractUnderlying` does not list `types.UntypedRune`: the trait has no decoder
+family, `Parse<T>('b')` works but JSON / YAML `98` is rejected. With the kind in the int64 family
+(current tree) both decode to the owner of 'b', and 99 / 4294967394 (= 98 + 2^32) stay rejected. -/
+theorem legacy_rune_family_violates :
+    extractUnderlying .untypedRune = .sint 32 ∧ extractUnderlyingQ true .untypedRune = .none ∧
+    (genFull { parsable := ["Rn"] } (runeDef true) (runeWitness true)).toOption.map (fun g =>
+      (g.base.parse ⟨"rune", .int 98⟩, g.unmarshalJSON {} (.num 98), g.unmarshalYAML {} "98"))
+      = some (some 1, none, none) ∧
+    (genFull { parsable := ["Rn"] } (runeDef false) (runeWitness false)).toOption.map (fun g =>
+      (g.base.parse ⟨"rune", .int 98⟩, g.unmarshalJSON {} (.num 98), g.unmarshalYAML {} "98",
+       g.unmarshalJSON {} (.num 99), g.unmarshalJSON {} (.num 4294967394)))
+      = some (some 1, some 1, some 1, none, none) := by decide
+
 /- `decode_by_trait` is proved for every family the template has a branch for:
    `decode_by_trait_string` (untyped and named strings; JSON, text, YAML), `decode_by_trait_json_int`
    and `decode_by_trait_yaml_int` (signed / unsigned integers of 1-64 bits, untyped rune included
